@@ -259,13 +259,22 @@ func (k *kase) sessionKeys(ss sessionSpec) (leased channel.Keys, free channel.Ke
 	return
 }
 
+// ent is one key/series pair destined for a frame; decoy entries must end up excluded.
+type ent struct {
+	key   channel.Key
+	s     telem.Series
+	decoy bool
+}
+
 // buildFrames returns, for one frame of a session, the distributed frame (leased + free),
-// the reference frame (leased only) and the rows it adds to the model when committed.
-func (k *kase) buildFrames(ss sessionSpec, fs frameSpec) (frame.Frame, cesium.Frame, []pendingRow) {
+// the reference frame (leased only, assembled and narrowed by the very same operations)
+// and the rows it adds to the model when committed. lastTS is the last index timestamp
+// each group (index into spec.Groups) has really written in this session.
+func (k *kase) buildFrames(ss sessionSpec, fs frameSpec, lastTS map[int]int64) (frame.Frame, cesium.Frame, []pendingRow) {
 	var (
-		df   frame.Frame
-		rf   cesium.Frame
-		rows []pendingRow
+		intended []ent
+		decoys   []ent
+		rows     []pendingRow
 	)
 	for i, gi := range fs.Groups {
 		g := ss.Groups[gi]
@@ -276,9 +285,7 @@ func (k *kase) buildFrames(ss sessionSpec, fs frameSpec) (frame.Frame, cesium.Fr
 			idxSamples[j] = tsBytes(t)
 			rows = append(rows, pendingRow{channel.Key(gs.Index.Key), sample{t, idxSamples[j]}})
 		}
-		is := seriesOf(telem.TimeStampT, idxSamples)
-		df = df.Append(channel.Key(gs.Index.Key), is)
-		rf = rf.Append(gs.Index.Key, is)
+		intended = append(intended, ent{key: channel.Key(gs.Index.Key), s: seriesOf(telem.TimeStampT, idxSamples)})
 		for _, d := range ss.DataSel[gi] {
 			dt := telem.DataType(gs.Data[d].DataType)
 			vals := make([][]byte, len(ts))
@@ -286,9 +293,7 @@ func (k *kase) buildFrames(ss sessionSpec, fs frameSpec) (frame.Frame, cesium.Fr
 				vals[j] = valueOf(dt, g, d, t)
 				rows = append(rows, pendingRow{channel.Key(gs.Data[d].Key), sample{t, vals[j]}})
 			}
-			s := seriesOf(dt, vals)
-			df = df.Append(channel.Key(gs.Data[d].Key), s)
-			rf = rf.Append(gs.Data[d].Key, s)
+			intended = append(intended, ent{key: channel.Key(gs.Data[d].Key), s: seriesOf(dt, vals)})
 		}
 	}
 	for i, n := range fs.FreeLens {
@@ -301,9 +306,168 @@ func (k *kase) buildFrames(ss sessionSpec, fs frameSpec) (frame.Frame, cesium.Fr
 		for j := range vals {
 			vals[j] = valueOf(dt, 99, i, int64(j))
 		}
-		df = df.Append(channel.Key(f.Key), seriesOf(dt, vals))
+		intended = append(intended, ent{key: channel.Key(f.Key), s: seriesOf(dt, vals)})
+	}
+	// decoys: whole groups with rows the session never writes, in the gap after the
+	// group's last real row (real rows are >= minIncr apart)
+	decoyGroup := func(g int, sel []int) {
+		gs := k.spec.Groups[g]
+		base, ok := lastTS[g]
+		if !ok {
+			base = ss.Start
+		}
+		n := fs.Build.DecoyRows
+		if n < 1 {
+			n = 1
+		}
+		idxSamples := make([][]byte, n)
+		for j := range idxSamples {
+			idxSamples[j] = tsBytes(base + 1 + int64(j))
+		}
+		decoys = append(decoys, ent{key: channel.Key(gs.Index.Key), s: seriesOf(telem.TimeStampT, idxSamples), decoy: true})
+		for _, d := range sel {
+			dt := telem.DataType(gs.Data[d].DataType)
+			vals := make([][]byte, n)
+			for j := range vals {
+				vals[j] = valueOf(dt, g+70, d, base+1+int64(j))
+			}
+			decoys = append(decoys, ent{key: channel.Key(gs.Data[d].Key), s: seriesOf(dt, vals), decoy: true})
+		}
+	}
+	for _, gi := range fs.Build.DecoySessionGroups {
+		decoyGroup(ss.Groups[gi], ss.DataSel[gi])
+	}
+	for _, g := range fs.Build.DecoyOtherGroups {
+		var all []int
+		for d := range k.spec.Groups[g].Data {
+			all = append(all, d)
+		}
+		decoyGroup(g, all)
+	}
+	for _, fi := range fs.Build.DecoyFree {
+		f := k.spec.Free[fi]
+		dt := telem.DataType(f.DataType)
+		decoys = append(decoys, ent{key: channel.Key(f.Key), s: seriesOf(dt, [][]byte{valueOf(dt, 98, fi, 1), valueOf(dt, 98, fi, 2)}), decoy: true})
+	}
+	mode := fs.Build.Mode
+	if mode == "" {
+		mode = "plain"
+	}
+	if mode == "masked-append" {
+		// a decoy occurrence of every intended leased key, to be masked before the real
+		// series are appended (repeated keys in the raw slices)
+		for _, e := range intended {
+			if e.key.Free() {
+				continue
+			}
+			d := e
+			d.decoy = true
+			d.s = garble(e.s)
+			decoys = append(decoys, d)
+		}
+	}
+	k.h.Seen("frame_build_modes", mode)
+	df := frame.Frame{Frame: assemble(fs.Build, intended, decoys, func(key channel.Key) (channel.Key, bool) { return key, true })}
+	rf := assemble(fs.Build, intended, decoys, func(key channel.Key) (uint32, bool) { return uint32(key), !key.Free() })
+	if df.Count() != len(intended) {
+		panic(fmt.Sprintf("frame assembly (%s): %d visible series, %d intended", mode, df.Count(), len(intended)))
+	}
+	if excl := len(df.RawKeys()) - df.Count(); excl > 0 {
+		k.h.Count("frames_with_masked_series", 1)
+		k.h.Count("masked_series", excl)
 	}
 	return df, rf, rows
+}
+
+// garble returns a series of the same type and length with different sample values.
+func garble(s telem.Series) telem.Series {
+	var samples [][]byte
+	for b := range s.Samples() {
+		c := append([]byte(nil), b...)
+		for i := range c {
+			c[i] ^= 0x15
+		}
+		if s.DataType.IsVariable() {
+			c = append([]byte("decoy:"), b...)
+		}
+		samples = append(samples, c)
+	}
+	return seriesOf(s.DataType, samples)
+}
+
+// assemble builds the frame object according to the build spec. conv maps a channel key
+// to the key type of the target frame and says whether the channel exists for that target
+// (free channels do not exist in the single-node reference); everything else - the order
+// of the entries, the narrowing calls and their key lists - is identical for both targets.
+func assemble[K xtypes.SizedNumeric](b buildSpec, intended, decoys []ent, conv func(channel.Key) (K, bool)) telem.Frame[K] {
+	keysOf := func(es []ent) []K {
+		var out []K
+		for _, e := range es {
+			if kk, ok := conv(e.key); ok {
+				out = append(out, kk)
+			}
+		}
+		return out
+	}
+	build := func(parts ...[]ent) telem.Frame[K] {
+		var f telem.Frame[K]
+		for _, p := range parts {
+			for _, e := range p {
+				if kk, ok := conv(e.key); ok {
+					f = f.Append(kk, e.s)
+				}
+			}
+		}
+		return f
+	}
+	wide := func(in, dec []ent) telem.Frame[K] {
+		if b.DecoyFirst {
+			return build(dec, in)
+		}
+		// interleave: decoys between the intended entries
+		var mixed []ent
+		for i := 0; i < len(in) || i < len(dec); i++ {
+			if i < len(in) {
+				mixed = append(mixed, in[i])
+			}
+			if i < len(dec) {
+				mixed = append(mixed, dec[i])
+			}
+		}
+		return build(mixed)
+	}
+	half := len(decoys) / 2
+	switch b.Mode {
+	case "keep":
+		return wide(intended, decoys).KeepKeys(keysOf(intended))
+	case "exclude":
+		return wide(intended, decoys).ExcludeKeys(keysOf(decoys))
+	case "exclude-keep":
+		return wide(intended, decoys).ExcludeKeys(keysOf(decoys[:half])).KeepKeys(keysOf(intended))
+	case "keep-exclude":
+		return wide(intended, decoys).KeepKeys(append(keysOf(intended), keysOf(decoys[:half])...)).ExcludeKeys(keysOf(decoys[:half]))
+	case "masked-append":
+		f := build(decoys).KeepKeys(nil)
+		for _, e := range intended {
+			if kk, ok := conv(e.key); ok {
+				f = f.Append(kk, e.s)
+			}
+		}
+		return f
+	case "extend":
+		hi := len(intended) / 2
+		first := wide(intended[:hi], decoys[:half]).KeepKeys(keysOf(intended[:hi]))
+		second := wide(intended[hi:], decoys[half:]).ExcludeKeys(keysOf(decoys[half:]))
+		return first.Extend(second)
+	case "huge":
+		var many []ent
+		for len(many)+len(intended) < 130 {
+			many = append(many, decoys...)
+		}
+		return wide(intended, many).KeepKeys(keysOf(intended))
+	default:
+		return build(intended)
+	}
 }
 
 func (k *kase) commitRows(rows []pendingRow) {
@@ -362,8 +526,14 @@ func (k *kase) runSession(ctx context.Context, si int) bool {
 	}
 	refFailed := ""
 	involved := leased.UniqueLeaseholders()
+	lastTS := map[int]int64{}
 	for fi, fs := range ss.Frames {
-		df, rf, rows := k.buildFrames(ss, fs)
+		df, rf, rows := k.buildFrames(ss, fs, lastTS)
+		for i, gi := range fs.Groups {
+			if n := len(fs.Rows[i]); n > 0 {
+				lastTS[ss.Groups[gi]] = fs.Rows[i][n-1]
+			}
+		}
 		pending = append(pending, rows...)
 		var auth bool
 		covered := map[node.Key]bool{}
@@ -724,17 +894,9 @@ func (k *kase) runIter(ctx context.Context, it iterSpec) bool {
 	}
 	defer closeIt()
 
-	chainEnded := false // the current run of auto-span moves has returned false on the reference
 	for ci, cmd := range it.Cmds {
 		var dOK, rOK bool
 		hasData := false
-		auto := cmd.Op == "next-auto" || cmd.Op == "prev-auto"
-		if !auto {
-			chainEnded = false
-		} else if chainEnded {
-			continue
-		}
-		k.doing = fmt.Sprintf("iterator through node %d route %s bounds [%d,%d) chunk %d, command #%d %s(%d) after %v", it.Gateway, route, it.Lo, it.Hi, it.Chunk, ci, cmd.Op, cmd.Arg, it.Cmds[:ci])
 		// The single-node reference first: if *it* does not return, the question is about
 		// cesium's iterator, not about the cluster.
 		refReturned := make(chan struct{})
@@ -792,9 +954,6 @@ func (k *kase) runIter(ctx context.Context, it iterSpec) bool {
 			}
 		}) {
 			return false
-		}
-		if auto && !rOK {
-			chainEnded = true
 		}
 		k.h.Count("iterator_commands_compared", 1)
 		if dOK != rOK {
